@@ -3,6 +3,150 @@ repository's own tests still pass is irrelevant here - this only measures that t
 reacts when the property is broken."""
 
 MUTANTS = [
+    # ---- C01
+    dict(prop="C01", name="global-probes-module-exists", file="fickling/fickle.py",
+         old="""    def run(self, interpreter: Interpreter):
+        module, attr = self.module, self.attr
+        if module in ("__builtin__", "__builtins__", "builtins"):""",
+         new="""    def run(self, interpreter: Interpreter):
+        module, attr = self.module, self.attr
+        try:
+            import importlib
+
+            importlib.import_module(module)
+        except Exception:
+            pass
+        if module in ("__builtin__", "__builtins__", "builtins"):"""),
+    dict(prop="C01", name="reduce-constant-folds-with-eval", file="fickling/fickle.py",
+         old="""            call = ast.Call(func, list(args.elts), [])
+        else:
+            call = ast.Call(func, [ast.Starred(args)], [])
+        # Any call to reduce""",
+         new="""            call = ast.Call(func, list(args.elts), [])
+            if isinstance(func, ast.Name) and func.id == "len" and len(args.elts) == 1:
+                try:
+                    call = ast.Constant(eval(compile(ast.Expression(call), "<fold>", "eval")))
+                except Exception:
+                    pass
+        else:
+            call = ast.Call(func, [ast.Starred(args)], [])
+        # Any call to reduce"""),
+    dict(prop="C01", name="load-falls-back-to-real-unpickler", file="fickling/fickle.py",
+         old="""        except ValueError as e:
+            if opcodes:
+                raise PickleDecodeError(e)""",
+         new="""        except NotImplementedError:
+            import pickle as _p
+
+            pickled.seek(first_pos)
+            _p.load(pickled)
+            raise
+        except ValueError as e:
+            if opcodes:
+                raise PickleDecodeError(e)"""),
+    dict(prop="C01", name="is_likely_safe-double-checks-by-loading", file="fickling/analysis.py",
+         old="""    with open(filepath, "rb") as f:
+        return check_safety(Pickled.load(f)).severity == Severity.LIKELY_SAFE""",
+         new="""    with open(filepath, "rb") as f:
+        safe = check_safety(Pickled.load(f)).severity == Severity.LIKELY_SAFE
+    if safe:
+        import pickle as _p
+
+        with open(filepath, "rb") as f:
+            try:
+                _p.load(f)
+            except Exception:
+                pass
+    return safe"""),
+    dict(prop="C01", name="cli-trace-writes-log-file", file="fickling/cli.py",
+         old="""                if args.trace:
+                    trace = tracing.Trace(interpreter)""",
+         new="""                if args.trace:
+                    open("fickling_trace.log", "a").write(args.PICKLE_FILE)
+                    trace = tracing.Trace(interpreter)"""),
+    # ---- C06
+    dict(prop="C06", name="last-pos-off-by-one", file="fickling/fickle.py",
+         old="                    last_pos = opcodes[-1].pos + len(opcodes[-1].info.code)",
+         new="                    last_pos = opcodes[-1].pos + len(opcodes[-1].info.code) + 1"),
+    dict(prop="C06", name="long-binput-data-truncated-to-16-bit-key", file="fickling/fickle.py",
+         old="""                        data = pickled.read(len(info.code) + info.arg.n)
+                        if len(data) != len(info.code) + info.arg.n:""",
+         new="""                        data = pickled.read(len(info.code) + info.arg.n)
+                        if info.name == "LONG_BINPUT":
+                            data = data[:3] + bytes(2)
+                        if len(data) != len(info.code) + info.arg.n:"""),
+    dict(prop="C06", name="no-seek-back-after-reading-data", file="fickling/fickle.py",
+         old="""                finally:
+                    # Need to reset the position within the file so as not to confuse genops
+                    pickled.seek(pos_before)""",
+         new="""                finally:
+                    # Need to reset the position within the file so as not to confuse genops
+                    if info.name != "BINUNICODE8":
+                        pickled.seek(pos_before)"""),
+    dict(prop="C06", name="stacked-stops-after-three", file="fickling/fickle.py",
+         old="""                if len(p) == 0:
+                    break
+                pickles.append(p)""",
+         new="""                if len(p) == 0 or len(pickles) >= 3:
+                    break
+                pickles.append(p)"""),
+    dict(prop="C06", name="make-stream-copies-seekable-at-offset", file="fickling/fickle.py",
+         old="""        if isinstance(data, (bytes, bytearray, ByteString)):
+            data = BytesIO(data)""",
+         new="""        if isinstance(data, (bytes, bytearray, ByteString)):
+            data = BytesIO(data)
+        elif isinstance(data, BytesIO) and data.tell() > 0:
+            data = BytesIO(data.read())"""),
+    # ---- C15
+    dict(prop="C15", name="int-validate-int()(revert FX9)", file="fickling/fickle.py",
+         old="""        if not isinstance(obj, int) or isinstance(obj, bool):
+            raise ValueError(f"{cls.__name__} can only be instantiated from integers, not {obj!r}")
+        return obj""",
+         new="""        _ = int(obj)
+        return obj"""),
+    dict(prop="C15", name="unsigned-int-wraps-silently(two sites)", edits=[
+        ("fickling/fickle.py", """            cls.min_value = 0
+            cls.max_value = 2**length_bits - 1
+        return ret
+
+    def encode_body(self) -> bytes:""", """            cls.min_value = 0
+            cls.max_value = 2**length_bits
+        return ret
+
+    def encode_body(self) -> bytes:"""),
+        ("fickling/fickle.py", """        return struct.pack(f"{self.endianness.value}{st}", self.arg)""",
+         """        return struct.pack(f"{self.endianness.value}{st}", self.arg & (2 ** (8 * self.num_bytes) - 1) if not self.signed else self.arg)"""),
+    ]),
+    dict(prop="C15", name="short-binunicode-length-wraps(two sites)", edits=[
+        ("fickling/fickle.py", """        if not isinstance(obj, str):
+            raise ValueError(f"obj must be of type str, not {obj!r}")
+        return super().validate(obj.encode("utf-8"))""", """        if not isinstance(obj, str):
+            raise ValueError(f"obj must be of type str, not {obj!r}")
+        if cls.length_bytes == 1 and len(obj) <= 255:
+            return obj.encode("utf-8")
+        return super().validate(obj.encode("utf-8"))"""),
+        ("fickling/fickle.py", """        if length < cls.min_value or length > cls.max_value:
+            raise ValueError(
+                f"Invalid length {length}: {cls.__name__} can only represent lengths in the range "
+                f"[{cls.min_value}, {cls.max_value}]"
+            )
+        st = cls.struct_types[cls.length_bytes]""", """        if cls.length_bytes == 1:
+            length &= 0xFF
+        st = cls.struct_types[cls.length_bytes]"""),
+    ]),
+    dict(prop="C15", name="encode-length-big-endian-for-4", file="fickling/fickle.py",
+         old="""        return struct.pack(f"{cls.length_endianness.value}{st}", length)""",
+         new="""        return struct.pack(f"{'>' if cls.length_bytes == 4 else cls.length_endianness.value}{st}", length)"""),
+    dict(prop="C15", name="dict-values-dropped-when-key-is-int", file="fickling/fickle.py",
+         old="""                for key, val in obj.items():
+                    res.append(ConstantOpcode.new(key))  # Assume key is constant""",
+         new="""                for key, val in obj.items():
+                    res.append(ConstantOpcode.new(str(key) if isinstance(key, bytes) else key))"""),
+    dict(prop="C15", name="unicode-escape(revert FX13)", file="fickling/fickle.py",
+         old="""        return text.encode("raw-unicode-escape") + b"\\n"
+""",
+         new="""        return raw_unicode_escape(text.encode("utf-8")).encode("utf-8")
+"""),
     # ---- C14
     dict(prop="C14", name="delitem-keeps-ast", file="fickling/fickle.py",
          old="""        del self._opcodes[index]
